@@ -36,7 +36,7 @@ ASSUMPTIONS = [
     'for a cycle any exception (incl. RecursionError) is acceptable, only non-termination is not',
 ]
 MINIMUMS = {
-    'quick': {'evaluations': 1200, 'objects_with>=3_paths': 150, 'cyclic_cases': 80, 'custom_registry_cycles': 15, 'get_all_paths_checked': 5000, 'rebuilds_checked': 3000,
+    'quick': {'evaluations': 1200, 'objects_with>=3_paths': 150, 'cyclic_cases': 70, 'custom_registry_cycles': 15, 'get_all_paths_checked': 5000, 'rebuilds_checked': 3000,
               'paths_checked': 30000, 'tempbox_structures': 100, 'positional_buildables': 100,
               'idreuse_results_checked': 2500, 'buildables_with_shuffled_kwargs': 400, 'retraversed_after_kwargs_reorder': 200,
               'get_all_paths_requeried_after_caller_edit': 5000},
